@@ -18,10 +18,6 @@ import (
 	"github.com/apache/arrow-go/v18/arrow/memory"
 )
 
-// epochUTC is the Unix epoch interpreted as UTC; used to derive Arrow
-// date32 / time64 / timestamp values from Go time.Time.
-var epochUTC = time.Date(1970, 1, 1, 0, 0, 0, 0, time.UTC)
-
 // asTime converts value to a time.Time, accepting either a plain time.Time
 // or a named type whose underlying type is time.Time (so handlers can
 // declare a typed alias that implements AnnotatedReturn).
@@ -90,7 +86,16 @@ func asBytes(value any) ([]byte, bool) {
 // daysSinceEpoch returns the number of full UTC days between t and the
 // Unix epoch — the Arrow date32 wire encoding.
 func daysSinceEpoch(t time.Time) int32 {
-	return int32(t.UTC().Sub(epochUTC) / (24 * time.Hour))
+	// Floor division on Unix seconds: Time.Sub saturates at about +-292
+	// years, and Go's integer division truncates toward zero, which put a
+	// pre-1970 instant that is not at midnight on the following day.
+	const secondsPerDay = 24 * 60 * 60
+	secs := t.Unix()
+	days := secs / secondsPerDay
+	if secs%secondsPerDay < 0 {
+		days--
+	}
+	return int32(days)
 }
 
 // microsSinceMidnight returns the wall-clock microsecond offset of t
